@@ -97,8 +97,16 @@ func (r *Run) Count(hist, key string) {
 	m[key]++
 }
 
+// Violate records an oracle violation. At most 3 are kept per id (a listed known finding that fires in
+// many histories must not crowd out other violations) and 60 in all.
 func (r *Run) Violate(id, what string, replay any) {
-	if len(r.violations) < 50 {
+	n := 0
+	for _, v := range r.violations {
+		if v.ID == id {
+			n++
+		}
+	}
+	if n < 3 && len(r.violations) < 60 {
 		r.violations = append(r.violations, Violation{id, what, replay})
 	}
 }
